@@ -1,12 +1,14 @@
 (* CommSumm.v — executable model of communication-sequence summarization (--comm_summarize_seq).
 
-   Code modelled (src/aiu_trace_analyzer/pipeline/coll_group.py, current tree, i.e. after the fix
-   "key communication sequences by the (job, number) pair"):
+   Code modelled (src/aiu_trace_analyzer/pipeline/coll_group.py, current tree, i.e. after the fixes
+   "key communication sequences by the (job, number) pair" and "the communication summarization also
+   collects the peers a part lists in args.Peers" (cff7329)):
      CommunicationGroupContext.sequence_number_pattern / extract_sequence_number -> [first_seq], [candidate]
          re.compile(r"[_-](\d+)").search(name): leftmost '_' or '-' directly followed by a digit, then the
          maximal run of digits; the key is the PAIR (jobhash, digit string) ("05" and "5" stay distinct).
      CommunicationGroupContext.add_to_sequence (incl. the nested _longest_name_overlap with its
-         "EmptyName" quirk)                                                      -> [add_to_sequence], [overlap]
+         "EmptyName" quirk and the nested _peers_of: int(args.Peer) plus int() of every non-blank entry
+         of args.Peers)                                    -> [add_to_sequence], [overlap], [peers_add]
      CommunicationGroupContext.apply                                              -> [apply1], [merged]
      communication_event_collection                                               -> [collect1]
      communication_event_apply                                                    -> [apply1]
@@ -19,8 +21,9 @@
 
    Numbers: job ids / uids / peers / counters are Z, times are Q (the tie runs on the exact grid, where
    the implementation's double arithmetic ts+dur, end-start, min, max is exact).
-   Exceptions: int(args.Peer) on a non-integer string is the explicit outcome Err "ValueError"
-   ([PBad]); a missing queue entry in apply would be Err "KeyError" (proved unreachable). *)
+   Exceptions: int() of args.Peer or of an entry of args.Peers on a non-integer string is the explicit
+   outcome Err "ValueError" ([PBad]); a missing queue entry in apply would be Err "KeyError" (proved
+   unreachable). *)
 From Coq Require Import ZArith QArith List Bool String Ascii.
 Import ListNotations.
 From AiuModel Require Import Base Pipeline.
@@ -68,7 +71,9 @@ Definition overlap (a b : string) : string :=
   match overlap_aux (a ++ "a") (b ++ "b") with Some p => p | None => "EmptyName"%string end.
 
 (* ------------------------------------------------------------------ events *)
-(* args.Peer: absent | something int() accepts | something int() rejects *)
+(* args.Peer: absent | something int() accepts | something int() rejects.
+   The same three cases classify ONE ENTRY of args.Peers: blank (str(p).strip() == "", skipped by the code) |
+   int() accepts | int() rejects. *)
 Inductive peer := PNone | PInt (z : Z) | PBad.
 
 Record ev := mkev {
@@ -79,8 +84,11 @@ Record ev := mkev {
   e_dur : Q;
   e_peer : peer;                  (* args.Peer *)
   e_uid : Z;                      (* args.uid: identity of the slice, never touched by the stages *)
-  e_peers : option (list Z)       (* args.Peers as a set of ints (absent before summarization unless the input has it) *)
+  e_peers : option (list peer)    (* args.Peers: absent | its entries in order (a comma separated string split at ',',
+                                     the elements of a list/tuple/set, any other value as ONE entry).  On a merged
+                                     slice: the union, ascending, every entry a PInt *)
 }.
+Definition listed (e : ev) : list peer := match e_peers e with Some l => l | None => [] end.
 
 Definition key : Type := (Z * string)%type.
 Definition key_eqb (a b : key) : bool := (Z.eqb (fst a) (fst b) && String.eqb (snd a) (snd b))%bool.
@@ -125,16 +133,22 @@ Fixpoint set_add (z : Z) (l : list Z) : list Z :=
   end.
 Definition peer_add (p : peer) (l : list Z) : list Z :=
   match p with PInt z => set_add z l | _ => l end.
+Definition entries_add (ps : list peer) (l : list Z) : list Z := fold_left (fun acc p => peer_add p acc) ps l.
+(* peers.update(_peers_of(event)): int(args.Peer) if present, then every non-blank entry of args.Peers *)
+Definition peers_add (e : ev) (l : list Z) : list Z := entries_add (listed e) (peer_add (e_peer e) l).
+Definition is_bad (p : peer) : bool := match p with PBad => true | _ => false end.
+(* _peers_of(event) raises ValueError *)
+Definition bad_peers (e : ev) : bool := (is_bad (e_peer e) || existsb is_bad (listed e))%bool.
 
 (* one more part folded into the summary of its sequence (None = key not yet in the dict) *)
 Definition step_d (o : option seqd) (e : ev) : seqd :=
   match o with
-  | None => mkseq 1 (e_ts e) (e_ts e + e_dur e) (e_name e) (peer_add (e_peer e) [])
+  | None => mkseq 1 (e_ts e) (e_ts e + e_dur e) (e_name e) (peers_add e [])
   | Some d => mkseq (q_count d + 1)
                     (Qmin (q_start d) (e_ts e))
                     (Qmax (q_end d) (e_ts e + e_dur e))
                     (overlap (q_name d) (e_name e))
-                    (peer_add (e_peer e) (q_peers d))
+                    (peers_add e (q_peers d))
   end.
 Definition step (o : option seqd) (e : ev) : option seqd := Some (step_d o e).
 
@@ -143,10 +157,8 @@ Arguments Ok {A} a.
 Arguments Err {A} tag.
 
 Definition add_to_sequence (q : queues) (k : key) (e : ev) : res queues :=
-  match e_peer e with
-  | PBad => Err "ValueError"
-  | _ => Ok (qset k (step_d (lookup k q) e) q)
-  end.
+  if bad_peers e then Err "ValueError"
+  else Ok (qset k (step_d (lookup k q) e) q).
 
 (* communication_event_collection: state update; the event itself is always passed on *)
 Definition collect1 (q : queues) (e : ev) : res queues :=
@@ -157,7 +169,7 @@ Definition collect1 (q : queues) (e : ev) : res queues :=
 
 Definition merged (e : ev) (d : seqd) : ev :=
   mkev (e_x e) (q_name d) (e_job e) (q_start d) (q_end d - q_start d) (e_peer e) (e_uid e)
-       (Some (q_peers d)).
+       (Some (map PInt (q_peers d))).
 Definition set_count (d : seqd) (c : Z) : seqd :=
   mkseq c (q_start d) (q_end d) (q_name d) (q_peers d).
 
@@ -215,9 +227,11 @@ Fixpoint spec (all rest : list ev) : list ev :=
                end
       end
   end.
-(* no part of a sequence carries a Peer that int() rejects *)
+(* the peers a part names: its Peer and the entries of its Peers *)
+Definition names (p : ev) (z : Z) : Prop := e_peer p = PInt z \/ In (PInt z) (listed p).
+(* no part of a sequence carries a Peer, or an entry in Peers, that int() rejects *)
 Definition peer_ok (e : ev) : bool :=
-  match candidate e, e_peer e with Some _, PBad => false | _, _ => true end.
+  match candidate e with Some _ => negb (bad_peers e) | None => true end.
 
 (* ------------------------------------------------------------------ the registered pipeline *)
 Record cstate := mkcs { cs_q : queues; cs_hold : list ev; cs_err : option string }.
@@ -252,9 +266,15 @@ Definition comm_graph : list (stage ev cstate) := [g_collect; g_barrier; g_apply
 Definition comm_st0 : store cstate := fun _ => cs0.
 
 (* ------------------------------------------------------------------ val encoders for the tie *)
+(* args.Peers as the tie observes it: absent | the set of ints it lists (ascending) | "malformed" *)
+Definition peers_val (o : option (list peer)) : val :=
+  match o with
+  | None => VN
+  | Some l => if existsb is_bad l then VS "malformed" else VLz (entries_add l [])
+  end.
 Definition ev_val (e : ev) : val :=
   VL [VZ (e_uid e); VB (e_x e); VS (e_name e); VQ (e_ts e); VQ (e_dur e);
-      match e_peers e with Some l => VLz l | None => VN end].
+      peers_val (e_peers e)].
 Definition res_val (r : res (list ev)) : val :=
   match r with Ok l => VL (map ev_val l) | Err t => VE t end.
 
